@@ -259,3 +259,55 @@ func VH_C15_stateloop_stale_transfer_reply() {
 	vAssert(step >= 4, "script-completed")
 	vReach("end")
 }
+
+//verif:check C15,C16 stubs=rt,timers,valuefile,abslog onblock=violation reach=acked,newterm-timeout,retried,second-ack,closed,end desc="real stateLoop: a leadership transfer whose target acknowledges timeout-now but never starts its election: the new-term timer fires (the newTermTimer arm of the loop over the real safeTimer), the leader retries, the second acknowledgement re-arms the timer, then shutdown: the transfer stays in progress throughout, no timer operation blocks the loop, and the transfer task completes exactly once with the server-closed error" bounds="2 voters, follower caught up; event script: transfer task, ack, new-term timer fires, ack, new-term timer fires or not, shutdown"
+func VH_C15_stateloop_newterm_timer() {
+	r := vLoopNode(Leader)
+	tr := transferLdr{task: newTask(), target: 0, timeout: 1000}
+	ack := func() rpcResponse {
+		return rpcResponse{response: &timeoutNowResp{resp{term: 1, result: success}}, from: 2}
+	}
+	fireAgain := vBool("second.newterm.fires")
+	step := 0
+	vSetIdleHook(func() {
+		vDrainFSM(r)
+		switch step {
+		case 0:
+			r.ldr.repls[2].status.matchIndex = r.lastLogIndex
+			vOffer(r.taskCh, tr)
+		case 1:
+			vAssert(r.ldr.transfer.respCh != nil && vNumSpawned() >= 2, "timeout-now-request-in-flight")
+			r.ldr.transfer.respCh <- ack()
+			vReach("acked")
+		case 2:
+			vAssert(r.ldr.transfer.respCh == nil && r.ldr.transfer.newTermTimer.active, "NT-ack-arms-new-term-timer")
+			vAssert(vFire(r.ldr.transfer.newTermTimer), "new-term-timer-was-pending")
+			vReach("newterm-timeout")
+		case 3:
+			vAssert(r.ldr.transfer.inProgress(), "NT-transfer-still-in-progress-after-new-term-timeout")
+			vAssert(!r.ldr.transfer.newTermTimer.active, "NT-fired-timer-is-inactive")
+			vAssert(r.ldr.transfer.respCh != nil, "NT-new-term-timeout-retries-the-target")
+			vReach("retried")
+			r.ldr.transfer.respCh <- ack()
+		case 4:
+			vAssert(r.ldr.transfer.newTermTimer.active && r.ldr.transfer.inProgress(), "NT-second-ack-re-arms")
+			vReach("second-ack")
+			if fireAgain {
+				vFire(r.ldr.transfer.newTermTimer)
+			} else {
+				r.doClose(ErrServerClosed)
+			}
+		default:
+			if !r.isClosed() {
+				r.doClose(ErrServerClosed)
+			}
+		}
+		step++
+	})
+	r.stateLoop()
+	vReach("closed")
+	vAssert(step >= 5, "script-completed")
+	vAssert(isClosed(tr.Done()) && tr.Err() == ErrServerClosed, "C15-pending-transfer-gets-server-closed")
+	vAssert(!r.ldr.transfer.timer.active && !r.ldr.transfer.newTermTimer.active, "timers-stopped-at-shutdown")
+	vReach("end")
+}
